@@ -86,9 +86,10 @@ def handle (f : String) (j : Json) : Option Json :=
       | .ok none => .null
       | .error e => jerr (errName e))
   | "fb_hyp" =>
-    -- the decidable hypothesis of the round-trip theorem on the record the url parses to
+    -- the decidable hypotheses of the two round-trip theorems on the record the url parses to:
+    -- [reparsable, fieldsOk, findingShape]
     some (match parse_facebook_url (s j "url") (fieldBool j "rel") with
-      | .ok (some r) => jbool (reparsable r)
+      | .ok (some r) => jlist [jbool (reparsable r), jbool (fieldsOk r), jbool (findingShape r)]
       | .ok none => .null
       | .error e => jerr (errName e))
   | "fb_re" =>
